@@ -128,6 +128,35 @@ impl EntryTrait for IndexEntry {
 }
 
 impl IndexEntry {
+    /// Check that an entry read from an index can be used safely: a damaged index can
+    /// decode into values that no version of Conserve writes.
+    pub(crate) fn check(&self) -> std::result::Result<(), String> {
+        if !Apath::is_valid(&self.apath) {
+            return Err(format!("invalid apath {:?}", &*self.apath));
+        }
+        let nanos: i32 = self
+            .mtime_nanos
+            .try_into()
+            .map_err(|_| format!("mtime_nanos {} out of range", self.mtime_nanos))?;
+        Timestamp::new(self.mtime, nanos)
+            .map_err(|err| format!("mtime of {:?} out of range: {err}", &*self.apath))?;
+        match self.kind {
+            Kind::Unknown => return Err(format!("unknown kind for {:?}", &*self.apath)),
+            Kind::Symlink if self.target.is_none() => {
+                return Err(format!("symlink {:?} has no target", &*self.apath));
+            }
+            _ => (),
+        }
+        if self
+            .addrs
+            .iter()
+            .any(|addr| addr.start.checked_add(addr.len).is_none())
+        {
+            return Err(format!("address out of range in {:?}", &*self.apath));
+        }
+        Ok(())
+    }
+
     /// Copy the metadata, but not the body content, from another entry.
     ///
     /// The result has no blocks.
